@@ -30,6 +30,13 @@ Interpretation choices (soundness first):
   document have different cell words (row numbers shifted by `off`).  Not generated: two lists in a row
   (Markdown cannot keep two adjacent lists of the same marker apart; the property is about items) and a
   table nested in a table cell (a pipe table cannot nest; what the outer cell should then hold is not stated).
+* Repeated content (families R, RX): documents of 2..MaxRepeat headings over two texts in which a heading text
+  occurs again (same / other level, next to its twin / apart, same / other parent, with and without paragraphs
+  between, TOC on and off), and documents in which a paragraph, a list item, a table cell or a later heading
+  repeats a heading's text.  Elements are therefore matched in document order: the n-th source heading with a
+  text is the n-th ATX heading with that text, its level must be the expected one, no text may come out as a
+  heading more often than in the source, and a word must occur in the output at least as often as in the
+  source elements rendered.  Table-of-contents entries ([text](#anchor) list items) are not source list items.
 * A header-less table may use its first row as the Markdown header row (GFM has no header-less table); what is
   required is that the grid reads back with the same rows once.
 * Heading level = clamp(level + offset, 1, min(max, 6)) for max in 1..6 (the statement's range; max = 0 "unset"
@@ -60,7 +67,9 @@ EVIDENCE = dict(
          "all rows; per format: w:tblHeader, table-header-rows, thead/th/tbody/tfoot, IsHeader, firstRow) x every fitting "
          "2-cell/4-cell merge, small tables over the full "
          "cell alphabet, block sequences (every 2-3 block sequence over table/heading/list/paragraph with a table, tables "
-         "adjacent to each other and to every other kind, first and last), 540 heading cases (9 levels x offsets -2..7 x max 1..6), every well-formed list shape <= 5 items "
+         "adjacent to each other and to every other kind, first and last), repeated content (every heading sequence of "
+         "<= MaxRepeat over 2 texts x 2 levels with a repeated text, with/without paragraphs, TOC on/off; paragraph / "
+         "item / cell / heading repeating a heading text), 540 heading cases (9 levels x offsets -2..7 x max 1..6), every well-formed list shape <= 5 items "
          "x depth <= 3 x kinds, 24 combined documents (front matter, TOC, offsets) - enumerated by TLC with the expected "
          "parsed-back structure computed by Markdown.tla; each is rendered by every tabula Markdown writer that can express "
          "it and parsed back by the harness's GFM reader (itself validated on the spec's reference rendering of every case). "
@@ -96,7 +105,7 @@ def run(ctx):
     # the negative controls and the history model run side by side with the large enumeration
     pool = ThreadPoolExecutor(max_workers=8)
     side = [pool.submit(ctx.tlc, "MarkdownMC", "Markdown_mc_impl_%s.cfg" % v, expect_violation=True, workers=2,
-                        extra=["-noGenerateSpecTE"]) for v in ("esc", "hdr", "hdrlast", "merge", "sep")]
+                        extra=["-noGenerateSpecTE"]) for v in ("esc", "hdr", "hdrlast", "merge", "sep", "dedup")]
     side.append(pool.submit(ctx.tlc, "MdHistoryMC", "MdHistory_mc_impl.cfg", expect_violation=True, workers=2,
                             extra=["-noGenerateSpecTE"]))
     hruns = [pool.submit(ctx.tlc, "MdHistoryMC", cfg, workers=4, collect=True, timeout=1800, count=False)
